@@ -68,16 +68,36 @@ Definition wire_of (t : ty) : option wirek :=
   | TDict DDict _ _ => Some WDict
   | _ => None
   end.
+(* A dataclass member of a Union has no parser of its own in UnionParser.parsers: it is reached through
+   tag_to_parser only, so it must carry a tag (Meta.tag, or the class name under auto_assign_tags - in the model
+   c_tag = Some _ either way); an untagged dataclass member can never be loaded. *)
 Fixpoint wires_distinct (seen : list wirek) (ts : list ty) : bool :=
   match ts with
   | [] => true
   | TNone :: r => wires_distinct seen r
+  | TData c _ :: r => match c_tag c with Some _ => wires_distinct seen r | None => false end
   | t :: r => match wire_of t with
               | Some w => negb (existsb (wirek_eqb w) seen) && wires_distinct (w :: seen) r
               | None => false
               end
   end.
-Definition union_ok (ts : list ty) : bool := wires_distinct [] ts && negb (none_first2 ts).   (* not Union[None, X]: finding F55 *)
+Definition is_data (t : ty) : bool := match t with TData _ _ => true | _ => false end.
+Definition is_wdict (t : ty) : bool := match wire_of t with Some WDict => true | _ => false end.
+Fixpoint tags_of (ts : list ty) : list pstr :=
+  match ts with
+  | [] => []
+  | t :: r => match tag_of t with Some g => g :: tags_of r | None => tags_of r end
+  end.
+Fixpoint str_nodup (l : list pstr) : bool :=
+  match l with [] => true | x :: r => negb (mem_str x r) && str_nodup r end.
+(* tagged dataclass members: the dumped dict must not be claimed by a dict[...] member (exact-type scan comes
+   first), and the tag assignment is injective (tag_to_parser is a dict: a later class with the same tag
+   replaces the earlier one - finding F9 for equal class names under auto_assign_tags) *)
+Definition data_members_ok (ts : list ty) : bool :=
+  negb (existsb is_data ts) || (negb (existsb is_wdict ts) && str_nodup (tags_of ts)).
+Definition union_ok (ts : list ty) : bool :=
+  wires_distinct [] ts && negb (none_first2 ts)     (* not Union[None, X]: finding F55 *)
+  && data_members_ok ts.
 
 (* ---- keys: every dumped key of a class resolves back to its own field ------------------- *)
 Fixpoint keys_resolve (c : cinfo) (fs : list finfo) (i : nat) : bool :=
@@ -97,8 +117,40 @@ Definition keys_ok (c : cinfo) : bool :=
               match resolve lc c (l_tag_key lc) with KIgnore => true | KField _ => false end
   end.
 
-(* ---- values at `Any` positions: only what both directions leave alone ---------------------- *)
-Definition plain (v : pv) : bool := is_scalar v.
+(* ---- values at `Any` positions: exactly what the dumper leaves alone ------------------------
+   The loader of an `Any` annotation returns its input as it is, so load Any (dump v) = v iff dump v = v.
+   `anyv` is the set of runtime values the dispatch of _asdict_inner maps to themselves: JSON scalars,
+   list / tuple (dump_with_list_or_tuple rebuilds `typ(...)`), dict / OrderedDict (dump_with_dict rebuilds
+   `typ(...)`; keys are dumped like values), NamedTuple instances, int/str-mixin Enum members (found by the
+   isinstance scan under int / str) - of such values, at every nesting.  NOT in the set (the dump changes
+   the runtime type and `Any` carries nothing to undo it): set / frozenset / deque (-> list), defaultdict
+   (-> dict), plain Enum (-> value), UUID / Decimal / Path / date / datetime / time / timedelta / bytes
+   (-> str), dataclass instances (-> dict).  props/C01.v proves both directions (C01_any_exact).
+   `json_any` is the sub-domain every TEXT format can carry back with the same types: what a JSON parser
+   itself produces (no tuple, no NamedTuple, str keys). *)
+Fixpoint anyv (v : pv) : bool :=
+  match v with
+  | VNone | VBool _ | VInt _ | VFloat _ | VStr _ => true
+  | VSeq k old xs => match k with SList | STuple => negb old && forallb anyv xs | _ => false end
+  | VDict k old kvs =>
+      match k with
+      | DDefault => false
+      | _ => negb old && forallb (fun kv => anyv (fst kv) && anyv (snd kv)) kvs
+      end
+  | VEnum e _ _ => match e_mix e with EPlain => false | _ => true end
+  | VNT _ xs => forallb anyv xs
+  | _ => false
+  end.
+
+Definition is_vstr (v : pv) : bool := match v with VStr _ => true | _ => false end.
+Fixpoint json_any (v : pv) : bool :=
+  match v with
+  | VNone | VBool _ | VInt _ | VFloat _ | VStr _ => true
+  | VSeq SList old xs => negb old && forallb json_any xs
+  | VDict DDict old kvs => negb old && forallb (fun kv => is_vstr (fst kv) && json_any (snd kv)) kvs
+  | _ => false
+  end.
+Definition plain (v : pv) : bool := anyv v.
 
 (* ---- the round-trip domain ------------------------------------------------------------------ *)
 Inductive rtd : ty -> pv -> Prop :=
@@ -129,6 +181,15 @@ Inductive rtd : ty -> pv -> Prop :=
     In v vs -> forallb lit_value_ok vs = true -> lit_unambiguous vs = true -> rtd (TLiteral vs) v
 | RNT n fts xs :
     Forall2 (fun ft x => rtd (fst ft) x) fts xs -> rtd (TNamedTuple n fts) (VNT n xs)
+(* TypedDict: a plain dict; `==` on plain dicts ignores order, the model's representative lists the required
+   keys, then the optional keys that are present (opt' = opt with the absent keys deleted), in declaration order;
+   the key names of one TypedDict are distinct (they are the keys of __annotations__).  Keys are NOT transformed. *)
+| RTD tid req opt opt' kvs1 kvs2 :
+    Forall2 (fun kt kv => fst kv = VStr (fst kt) /\ rtd (snd kt) (snd kv)) req kvs1 ->
+    sublist opt' opt ->
+    Forall2 (fun kt kv => fst kv = VStr (fst kt) /\ rtd (snd kt) (snd kv)) opt' kvs2 ->
+    NoDup (map fst req ++ map fst opt) ->
+    rtd (TTypedDict tid req opt) (VDict DDict false (kvs1 ++ kvs2))
 | RData c fts xs :
     keys_ok c = true -> List.length (c_fields c) = List.length fts ->
     Forall2 (fun ft x => rtd (fst ft) x) fts xs -> rtd (TData c fts) (VInst c xs).
